@@ -33,6 +33,29 @@ def specStartsWith (v sub : List Nat) (b : Bool) : Bool := b == subAt v sub 0
 def specEndsWith (v sub : List Nat) (b : Bool) : Bool := b == subAt v sub (v.length - sub.length)
 def specContains (v sub : List Nat) (b : Bool) : Bool := b == (List.range (v.length + 1)).any (subAt v sub)
 
+/-! case-insensitive mode.  `ends_with` / `contains` lower-case both strings (`str::to_lowercase`,
+    Final_Sigma rule included) and look for the position there: the oracle and the theorems evaluate
+    `specStartsWith/EndsWith/Contains` on the two lower-cased chars views.  `starts_with` walks the
+    two strings char by char instead (`ciPrefix`); the two readings coincide on `simpleLower` strings. -/
+
+/-- `a` and `b` have the same complete lower-case expansion (`char::to_lowercase`). -/
+def foldEq (cm : CaseMap) (a b : Nat) : Bool := cm.toLower a == cm.toLower b
+
+/-- every char of `sub` has a partner with the same lower-case expansion at the same index of `v`. -/
+def ciPrefix (cm : CaseMap) : List Nat → List Nat → Bool
+  | [], _ => true
+  | _ :: _, [] => false
+  | a :: sub, b :: v => foldEq cm a b && ciPrefix cm sub v
+
+/-- no `Σ` (U+03A3), the one char `str::to_lowercase` maps depending on its context. -/
+def noSigma (s : List Nat) : Bool := !s.contains capSigma
+
+/-- every char lower-cases to exactly one char (all of Unicode 16 except `İ` U+0130 ↦ `i̇`). -/
+def singleLower (cm : CaseMap) (s : List Nat) : Bool := s.all fun c => (cm.toLower c).length == 1
+
+/-- lower-casing the string is lower-casing it char by char, one char each. -/
+def simpleLower (cm : CaseMap) (s : List Nat) : Bool := noSigma s && singleLower cm s
+
 /-- `strlen(truncate(s, limit, suffix)) ≤ max(limit, 0) + strlen(suffix)`. -/
 def specTruncate (limit : Int) (lenResult lenSuffix : Int) : Bool :=
   decide (lenResult ≤ (if limit < 0 then 0 else limit) + lenSuffix)
